@@ -127,6 +127,76 @@ def r08_6(ctx: Ctx) -> None:
             ctx.check(ok, "R08.6", aw, n, "a list is initialised only when it is None", "_after_write re-initialises a per-substream list that may already hold the existing members' entries")
 
 
+def _maybe_none(f: Func, e: ast.AST, depth: int = 3) -> bool:
+    for s_ in q.sources_of(f, e, depth=depth):
+        if isinstance(s_, ast.Constant) and s_.value is None:
+            return True
+        if isinstance(s_, ast.BoolOp) and isinstance(s_.op, ast.Or) and isinstance(s_.values[-1], ast.Constant) and s_.values[-1].value is None:
+            return True
+    return False
+
+
+def nullable_member_keys(ctx: Ctx) -> Set[str]:
+    """keys of the per-member record that _real_get_contents may set to None for an existing member."""
+    rg = shared.szf(ctx, "_real_get_contents")
+    gs = shared.szf(ctx, "_get_fileinfo_sizes")
+    # names of the helper's result tuple that may be None
+    none_pos: Set[int] = set()
+    for r in [n for n in walk(gs.node) if isinstance(n, ast.Return) and isinstance(n.value, ast.Tuple)]:
+        for i, e in enumerate(r.value.elts):
+            if _maybe_none(gs, e):
+                none_pos.add(i)
+    nullable_locals: Set[str] = set()
+    for n in walk(rg.node):
+        if isinstance(n, ast.Assign) and isinstance(n.targets[0], ast.Tuple) and isinstance(n.value, ast.Call) and attr_tail(n.value) == "_get_fileinfo_sizes":
+            for i, t in enumerate(n.targets[0].elts):
+                if i in none_pos and isinstance(t, ast.Name):
+                    nullable_locals.add(t.id)
+    keys: Set[str] = set()
+    for n in walk(rg.node):
+        if isinstance(n, ast.Assign) and isinstance(n.targets[0], ast.Subscript) and isinstance(n.targets[0].slice, ast.Constant):
+            v = n.value
+            if (isinstance(v, ast.Name) and v.id in nullable_locals) or _maybe_none(rg, v, depth=1):
+                keys.add(n.targets[0].slice.value)
+    return keys
+
+
+def r08_7(ctx: Ctx) -> None:
+    """append: values of EXISTING members that may be None are not used in arithmetic without a not-None guard."""
+    keys = nullable_member_keys(ctx)
+    ctx.need("maxsize" in keys, f"nullable member keys not derived ({sorted(keys)})")
+    roots = [shared.szf(ctx, n) for n in ("write", "writef", "writestr", "writeall", "close")]
+    clo = ctx.res.closure(roots)
+    n_sites = 0
+    for fq, f in sorted(clo.items()):
+        if f.module != "py7zr":
+            continue
+        for n in walk(f.node):
+            tgt = None
+            if isinstance(n, ast.AugAssign) and isinstance(n.target, ast.Subscript) and isinstance(n.target.slice, ast.Constant) and n.target.slice.value in keys:
+                tgt = n.target
+            elif isinstance(n, ast.BinOp):
+                for side in (n.left, n.right):
+                    if isinstance(side, ast.Subscript) and isinstance(side.slice, ast.Constant) and side.slice.value in keys and isinstance(side.ctx, ast.Load):
+                        tgt = side
+            if tgt is None:
+                continue
+            n_sites += 1
+            facts = q.facts_at(f, n)
+            load = ast.parse(ast.unparse(tgt), mode="eval").body
+            ok = q.known_not_none(facts, load)
+            for cd, pol in facts:
+                t = q.is_none_test(cd)
+                if t is not None and (t[1] != pol) and isinstance(t[0], ast.Call) and attr_tail(t[0]) == "get" and norm(t[0].func.value) == norm(tgt.value) \
+                        and t[0].args and isinstance(t[0].args[0], ast.Constant) and t[0].args[0].value == tgt.slice.value:
+                    ok = True
+            ctx.check(ok, "R08.7", f, n, f"{fq}: {norm(tgt)} used in arithmetic under a not-None guard",
+                      f"{norm(tgt)} can be None for a member read from the existing archive (non-solid members have no '{tgt.slice.value}'), but `{norm(n)}` uses it in arithmetic "
+                      "guarded only by key presence: appending only directories / empty files (or a session whose writes all failed) raises TypeError in close(), after the old header "
+                      "has already been overwritten", path=ctx.res.call_path(roots, fq))
+    ctx.floor("R08.7", n_sites, 1, "arithmetic on nullable member values in the write closure")
+
+
 def r08_3(ctx: Ctx, rule: str = "R08.3") -> None:
     f = shared.szf(ctx, "_prepare_append")
     seeks = [c for c in q.calls(f) if attr_tail(c) == "seek"]
@@ -203,3 +273,4 @@ def run(ctx: Ctx) -> None:
     r08_6(ctx)
     c07.r07_3(ctx)
     c07.r07_8(ctx)
+    r08_7(ctx)
